@@ -63,6 +63,15 @@ func (c *client) Dial(ctx context.Context) error {
 		c.conn = conn
 		c.connM.Unlock()
 
+		select {
+		case <-c.done:
+			// client was closed before it got to connect,
+			// nobody else is going to close this connection
+			conn.Close()
+			return
+		default:
+		}
+
 		// time out send hello if it take long
 		if deadline, ok := ctx.Deadline(); ok {
 			if err = c.conn.SetWriteDeadline(deadline); err != nil {
